@@ -290,7 +290,7 @@ func (u *Unit) sprintf(st *State, cc *ssa.CallCommon, args []Value) Value {
 // (target type, data) with an error flag; on error the target may be
 // partially written (havoc).
 func (u *Unit) unmarshal(st *State, instr ssa.Instruction, cc *ssa.CallCommon, args []Value) []callRes {
-	u.note("stub encoding/json.Unmarshal: deterministic function unjson<T>(data) with error flag unjsonOK<T>(data); never panics; on error the target is arbitrary")
+	u.note("stub encoding/json.Unmarshal: deterministic function unjson<T>(data) with error flag unjsonOK<T>(data) when the target holds the zero value of T (otherwise an unrelated function of data and the previous value: merge semantics); never panics; on error the target is arbitrary")
 	data := u.lower(st, args[0], cc.Args[0].Type())
 	var target *Ptr
 	var pointee types.Type
@@ -306,12 +306,20 @@ func (u *Unit) unmarshal(st *State, instr ssa.Instruction, cc *ssa.CallCommon, a
 		return one(st, errv)
 	}
 	tid := u.typeID(pointee)
-	okp := u.ghost("unjsonOK", SBool, tid, data)
-	st.assume(Eq(Eq(app(SInt, "ity", errv), IntLit(0)), okp))
 	srt := u.sortOf(pointee)
+	// Unmarshal merges into the existing value of the target: only a target
+	// holding the zero value of its type yields the pure function unjson<T>(data)
+	prev := u.lower(st, u.load(st, target), pointee)
+	isZero := u.bind(st, Eq(prev, u.zero(pointee)), "unm.zero")
 	fn := "unjson!" + smtName(string(srt))
 	u.decls.Add(fn, fmt.Sprintf("(declare-fun %s (Int String) %s)", fn, srt))
-	good := app(srt, fn, tid, data)
+	fnInto := "unjsonInto!" + smtName(string(srt))
+	u.decls.Add(fnInto, fmt.Sprintf("(declare-fun %s (Int String %s) %s)", fnInto, srt, srt))
+	fnOKInto := "unjsonOKInto!" + smtName(string(srt))
+	u.decls.Add(fnOKInto, fmt.Sprintf("(declare-fun %s (Int String %s) Bool)", fnOKInto, srt))
+	okp := Ite(isZero, u.ghost("unjsonOK", SBool, tid, data), app(SBool, fnOKInto, tid, data, prev))
+	st.assume(Eq(Eq(app(SInt, "ity", errv), IntLit(0)), okp))
+	good := Ite(isZero, app(srt, fn, tid, data), app(srt, fnInto, tid, data, prev))
 	bad := u.fresh("partial", srt)
 	u.store(st, target, Ite(okp, good, bad))
 	return one(st, errv)
